@@ -36,7 +36,7 @@ def simple_source(doc, kind):
     raise ValueError(kind)
 
 
-def call(thunk, faults=None):
+def call(thunk, faults=None, norm=None):
     """Run thunk() inside a fresh OpContext; returns (outcome dict, ctx).
 
     outcome: {'status': 'ok', 'value': canon} | {'status': 'exc', 'exc': qualname,
@@ -52,11 +52,11 @@ def call(thunk, faults=None):
             v = thunk()
             out = {'status': 'ok', 'value': canon.canon(v)}
         except Exception as e:
-            name, toks = canon.canon_exc(e)
+            name, toks = canon.canon_exc(e, norm)
             out = {'status': 'exc', 'exc': name, 'msg': toks,
                    'from_callback': callback_frames(e.__traceback__),
                    'contained': classify_exc(e),
-                   'text': str(e)[:300]}
+                   'text': (norm(str(e)) if norm else str(e))[:300]}
             e.__traceback__ = None
             del e
     finally:
